@@ -96,3 +96,9 @@ def truth_axioms(used):
 
 
 REG.axiom_hooks.append(truth_axioms)
+
+
+@spec_function()
+def reflected_has_priority(ex, st, left, right, rmethod):
+    """Python data model: type(right) is a proper subclass of type(left) and overrides the reflected method"""
+    return S_bool(uf("reflected_priority", V, V, V, BoolS)(box(left, st), box(right, st), box(rmethod, st)))
